@@ -20,6 +20,16 @@ func verifKey(kind byte, tag string) Object {
 		return String{Value: string([]byte{vByte(tag)})}
 	case 'A':
 		return NewArray([]Object{Integer{Value: vInt64(tag)}})
+	case 'E': // containers of other sizes: the order of containers looks at sizes first
+		return NewArray([]Object{})
+	case 'T':
+		return NewArray([]Object{Integer{Value: vInt64(tag)}, Integer{Value: vInt64(tag)}})
+	case 'W':
+		return NewArray([]Object{Integer{Value: vInt64(tag)}, NULL, Integer{Value: vInt64(tag)}})
+	case 'M':
+		return NewMap().Set(Integer{Value: vInt64(tag)}, TRUE)
+	case 'Q':
+		return NewMap().Set(Integer{Value: vInt64(tag)}, TRUE).Set(String{Value: "k"}, NULL).Set(NULL, NULL)
 	}
 	panic("bad key kind")
 }
